@@ -55,6 +55,7 @@ TWatcher == \/ Is("w.next") /\ (WLoop \/ (WSel /\ wpc' = "next"))
             \/ Is("w.exit") /\ (WNextExit \/ WClosedExit \/ (WSel /\ wpc' = "done"))
 TPublish == Is("env.publish") /\ Publish
 TCancel == Is("env.cancel") /\ Cancel(T)
+TPsStop == Is("env.psstop") /\ PsStop
 (* the caller's context was asked for its error (a scheduling point of the harness's context, no step of the receiver) *)
 TCtxErr == Is("x.ctxerr") /\ UNCHANGED vars
 (* end of a run: a Close has been called, so every call has returned and the watcher has exited *)
@@ -64,7 +65,7 @@ TFinal == /\ Is("final") /\ closeCalled
           /\ mutex = 0
           /\ UNCHANGED vars
 
-TNext == TReset \/ TStart \/ TLocked \/ TClose \/ TDirect \/ TUncache \/ TRet \/ TWatcher \/ TPublish \/ TCancel \/ TCtxErr \/ TFinal
+TNext == TReset \/ TStart \/ TLocked \/ TClose \/ TDirect \/ TUncache \/ TRet \/ TWatcher \/ TPublish \/ TPsStop \/ TCancel \/ TCtxErr \/ TFinal
 TSpec == TInit /\ [][TNext]_tvars
 
 (* the replay branches where the code's next step depends on data (duplicate or not, allowed peer or not): the
